@@ -143,7 +143,7 @@ def arg_mats(line):
         if t[i] == 'm':
             r, c = int(t[i + 1]), int(t[i + 2])
             w = (c + 63) // 64
-            args.append(('m', r, c, t[i + 4:i + 4 + r * w]))
+            args.append(('m', r, c, t[i + 4:i + 4 + r * w], t[i + 3]))
             i += 4 + r * w
         elif t[i] == 'p':
             ln = int(t[i + 1])
@@ -170,6 +170,43 @@ def mask_mat(r, c, words):
                 v &= hb
             out.append('%x' % v)
     return 'm %d %d o %s' % (r, c, ' '.join(out)) if out else 'm %d %d o' % (r, c)
+
+
+def raw_mat(a):
+    """operand token string exactly as given (placement and excess bits kept)"""
+    return 'm %d %d %s%s' % (a[1], a[2], a[4], (' ' + ' '.join(a[3])) if a[3] else '')
+
+
+GLUE_OPS = ('solve_left', 'pluq_solve_left', 'kernel', 'echelonize_pluq')
+
+
+def glue_line(cid, line, fact_main):
+    """second-phase line for the glue mirrors: the model routine is instantiated with the factorisation (S, P, Q, r)
+    that the library produced for this input; its output must equal the implementation's exactly"""
+    t = line.split()
+    op = t[1]
+    if op not in GLUE_OPS or not fact_main.startswith('ok'):
+        return None
+    res = fact_main.split()
+    args = arg_mats(line)
+    try:
+        rk = int(res[2])
+        rr, cc, words, i = mat_tokens(res, 3)
+        lp = int(res[i + 1]); P = res[i + 2:i + 2 + lp]; i += 2 + lp
+        lq = int(res[i + 1]); Q = res[i + 2:i + 2 + lq]
+        fact = '%s p %d %s p %d %s %d' % (mask_mat(rr, cc, words), lp, ' '.join(P), lq, ' '.join(Q), rk)
+        fact = re.sub(r' +', ' ', fact)
+        if op == 'solve_left':
+            return '%s.glue glue_solve %s %s %s %s' % (cid, fact, raw_mat(args[0]), raw_mat(args[1]), args[3][1])
+        if op == 'pluq_solve_left':
+            return '%s.glue glue_pluq_solve %s %s %s' % (cid, fact, raw_mat(args[1]), args[3][1])
+        if op == 'kernel':
+            return '%s.glue glue_kernel %s %s' % (cid, fact, raw_mat(args[0]))
+        if op == 'echelonize_pluq':
+            return '%s.glue glue_echelonize %s %s %s' % (cid, fact, raw_mat(args[0]), args[1][1])
+    except Exception as e:
+        return '%s.glue bad-glue-input %s' % (cid, type(e).__name__)
+    return None
 
 
 def checker_line(cid, line, impl_main):
@@ -288,6 +325,10 @@ def correspond(build, lines, harness_args=(), env=None, canon=None, model_lines=
             cl = checker_line(cid, byid0[cid], main)
             if cl:
                 chk_lines.append(cl)
+            if cid + '.fact' in himpl:
+                gl = glue_line(cid, byid0[cid], himpl[cid + '.fact'][0])
+                if gl:
+                    chk_lines.append(gl)
     hchk = {}
     if chk_lines:
         cr = run_exe(MODEL_EXE, chk_lines)
@@ -316,6 +357,12 @@ def correspond(build, lines, harness_args=(), env=None, canon=None, model_lines=
         if ck is not None and not ck[0].startswith('ok'):
             stale.append(dict(id=cid, line=line, impl=raw_iv, model=ck[0], spec=None, kind='checker-failed'))
             continue
+        gk = hchk.get(cid + '.glue')
+        if gk is not None and gk[0] != raw_iv:
+            # the glue mirror, run on the library's own factorisation, must reproduce the output word for word
+            nglue_bad = True
+            stale.append(dict(id=cid, line=line, impl=raw_iv, model=gk[0], spec=None, kind='impl-differs-from-glue-model'))
+            continue
         if canon:
             iv, mv = canon(op, iv), canon(op, mv)
         rec = dict(id=cid, line=line, impl=iv, model=mv, spec=sp[0] if sp else None)
@@ -337,6 +384,7 @@ def correspond(build, lines, harness_args=(), env=None, canon=None, model_lines=
             if kv.get('leak', '0') not in ('0', '-'):
                 diag_bad.append(dict(id=cid, line=line, diag=d, kind='leak'))
     return dict(spec_viol=spec_viol, stale=stale, diag_bad=diag_bad, n=len(ids), nspec=nspec, nchecked=len(hchk),
+                nglue=sum(1 for k in hchk if k.endswith('.glue')),
                 harness_rc=hr.returncode, harness_stderr=hr.stderr[-4000:], model_rc=mr.returncode,
                 model_stderr=mr.stderr[-2000:], t_harness=th, t_model=tm, impl=himpl, model=hmodel)
 
